@@ -169,6 +169,13 @@ func prepare[Type any](opts Opts[Type]) (
 		return nil, nil, nil, ErrHandlersQuantityTooSmall
 	}
 
+	// divider may not create entries for some priorities at all
+	for _, priority := range priorities {
+		if strategic[priority] == 0 {
+			return nil, nil, nil, ErrHandlersQuantityTooSmall
+		}
+	}
+
 	return inputs, priorities, strategic, nil
 }
 
